@@ -257,12 +257,12 @@ def _objects():
 WRITERS = {
     # name: (object key, [target file names], write kwargs)
     "ArrayAlignment.write": ("ArrayAlignment", ["x.fasta", "x.fasta.gz", "x.phylip", "x.fasta.bz2"], {}),
-    "Alignment.write": ("Alignment", ["x.fasta", "x.fasta.gz", "x.paml"], {}),
+    "Alignment.write": ("Alignment", ["x.fasta", "x.fasta.gz", "x.paml", "x.fasta.zip"], {}),
     "SequenceCollection.write": ("SequenceCollection", ["x.fasta", "x.fasta.gz"], {}),
     "new Alignment.write": ("new Alignment", ["x.fasta", "x.fasta.gz"], {}),
     "new SequenceCollection.write": ("new SequenceCollection", ["x.fasta", "x.fasta.bz2"], {}),
-    "PhyloNode.write": ("PhyloNode", ["x.nwk", "x.json", "x.nwk.gz"], {}),
-    "Table.write": ("Table", ["x.tsv", "x.csv", "x.tsv.gz", "x.pickle"], {}),
+    "PhyloNode.write": ("PhyloNode", ["x.nwk", "x.json", "x.nwk.gz", "x.nwk.zip"], {}),
+    "Table.write": ("Table", ["x.tsv", "x.csv", "x.tsv.gz", "x.pickle", "x.tsv.zip"], {}),
     "DictArray.write": ("DictArray", ["x.tsv", "x.tsv.gz"], {}),
     "TreeCollection.write": ("TreeCollection", ["x.trees"], {}),
     "atomic_write": ("atomic_write", ["x.txt", "x.txt.gz", "x.txt.bz2"], {}),
@@ -375,7 +375,7 @@ def is_cleanup(ev, target):
 
 def explore_writer(name, spec, acc, objs, base, pairs):
     key, target, kw, existing = spec["key"], spec["target"], spec["kw"], spec["existing"]
-    family = "zip member" if target.endswith(".zip") else "atomic_write family"
+    family = ("zip member" if key == "atomic_write_zip" else f"{name} to a .zip path") if target.endswith(".zip") else "atomic_write family"
     cls = f"{family}; destination {'exists' if existing else 'absent'}"
     case0 = {"writer": name, "target": target, "existing": existing, "faults": []}
     acc.case(case0)
